@@ -213,31 +213,61 @@ def on_scopes(p, r, exc, acc):
 
 # ------------------------------------------------------------------ reserved names
 RESERVED = ["context", "UNDEFINED", "STOP_RENDERING", "loop", "ordinary"]
+ENTRY = ["render", "render_unicode", "get_def.render", "render_context", "Context()"]
+ASSIGN = {
+    "block-assignment": "<% NAME = 1 %>x",
+    "for-target": "% for NAME in [1]:\nx\n% endfor\n",
+    "for-tuple-target": "% for i, NAME in [(1, 2)]:\nx\n% endfor\n",
+    "with-as": "<%! import contextlib %>\n% with contextlib.nullcontext(1) as NAME:\nx\n% endwith\n",
+    "except-as": "% try:\nx\n% except Exception as NAME:\ny\n% endtry\n",
+    "import-as": "<% import os as NAME %>x",
+    "def-statement": "<%\ndef NAME(): pass\n%>x",
+    "assignment-in-def": "<%def name='d()'><% NAME = 1 %>x</%def>${d()}",
+    "assignment-in-block": "<%block name='b'><% NAME = 1 %>x</%block>",
+    "module-level-assignment": "<%! NAME = 1 %>x",
+    "walrus-in-expression": "${(NAME := 1)}",
+}
+WHERE = ENTRY + list(ASSIGN)
+
+
+def reserved_case(TPm, RTm, EXCm, name, where, enable_loop):
+    import io
+    try:
+        if where in ASSIGN:
+            TPm.Template(ASSIGN[where].replace("NAME", name), enable_loop=enable_loop).render()
+        else:
+            t = TPm.Template("<%def name='d()'>x</%def>y", enable_loop=enable_loop)
+            kw = {name: 1}
+            if where == "render":
+                t.render(**kw)
+            elif where == "render_unicode":
+                t.render_unicode(**kw)
+            elif where == "get_def.render":
+                t.get_def("d").render(**kw)
+            elif where == "render_context":
+                t.render_context(RTm.Context(io.StringIO()), **kw)
+            else:
+                t.render_context(RTm.Context(io.StringIO(), **kw))
+        return "ok"
+    except EXCm.NameConflictError:
+        return "NameConflictError"
+    except Exception as e:
+        return "raised %s" % type(e).__name__
 
 
 def h_reserved(p):
     name = RESERVED[p.choose(len(RESERVED), "name")]
-    where = ["render-argument", "template-assignment"][p.choose(2, "where")]
+    where = WHERE[p.choose(len(WHERE), "where")]
     enable_loop = bool(p.choose(2, "enable_loop"))
-    res = None
-    try:
-        if where == "render-argument":
-            TP.Template("x", enable_loop=enable_loop).render(**{name: 1})
-        elif where == "template-assignment":
-            TP.Template("<%% %s = 1 %%>x" % name, enable_loop=enable_loop).render()
-        else:
-            TP.Template('<%%def name="d(%s)">x</%%def>y' % name, enable_loop=enable_loop).render()
-        res = "ok"
-    except EXC.NameConflictError:
-        res = "NameConflictError"
-    except Exception as e:
-        res = "raised %s" % type(e).__name__
-    return dict(name=name, where=where, enable_loop=enable_loop, res=res)
+    return dict(name=name, where=where, enable_loop=enable_loop, res=reserved_case(TP, RT, EXC, name, where, enable_loop))
 
 
 def on_reserved(p, r, exc, acc):
     if exc is not None:
         acc.candidate(kind="harness-exception", input=None, detail="%s: %s" % (type(exc).__name__, str(exc)[:200]))
+        return
+    if r["name"] == "context" and r["where"] == "render_context":
+        acc.counts["render_context(context, context=...) is a Python TypeError (duplicate argument): not asserted"] += 1
         return
     acc.tags["asserted"] += 1
     reserved = r["name"] in ("context", "UNDEFINED", "STOP_RENDERING") or (r["name"] == "loop" and r["enable_loop"])
@@ -246,6 +276,57 @@ def on_reserved(p, r, exc, acc):
     if r["res"] != want:
         acc.candidate(kind="reserved-name", input=dict(name=r["name"], where=r["where"], enable_loop=r["enable_loop"]), detail="%s, expected %s" % (r["res"], want))
     acc.sample(dict(name=r["name"], where=r["where"], enable_loop=r["enable_loop"], result=r["res"]))
+
+
+# ------------------------------------------------------------------ defs as names: a nested def shadows a top-level def of the same name
+def defnames_source(f):
+    out = []
+    if f["toplevel_def"]:
+        out.append('<%def name="v()">top</%def>')
+    inner = ('<%def name="v()">nested</%def>' if f["nested_def"] else "") + "o=[${val(v)}]"
+    if f["deeper"]:
+        inner += '<%def name="m()">m=[${val(v)}]</%def>${m()}'
+    out.append('<%def name="o()">' + inner + "</%def>")
+    out.append('<%def name="other()">other=[${val(v)}]</%def>')
+    out.append("${o()} ${other()} body=[${val(v)}]")
+    return "".join(out)
+
+
+def defnames_reference(f):
+    base = "top" if f["toplevel_def"] else ("ctx" if f["in_context"] else "UNDEF")
+    in_o = "nested" if f["nested_def"] else base
+    return "o=[%s]%s other=[%s] body=[%s]" % (in_o, ("m=[%s]" % in_o) if f["deeper"] else "", base, base)
+
+
+def defnames_case(TPm, RTm, f):
+    def val(x):
+        if x is RTm.UNDEFINED:
+            return "UNDEF"
+        return x() if callable(x) else x
+    data = {"val": val}
+    if f["in_context"]:
+        data["v"] = "ctx"
+    try:
+        return TPm.Template(defnames_source(f)).render(**data)
+    except Exception as e:
+        return "raised %s: %s" % (type(e).__name__, e)
+
+
+def h_defnames(p):
+    f = {k: bool(p.choose(2, k)) for k in ("toplevel_def", "nested_def", "deeper", "in_context")}
+    return dict(f=f, out=defnames_case(TP, RT, f))
+
+
+def on_defnames(p, r, exc, acc):
+    if exc is not None:
+        acc.candidate(kind="harness-exception", input=None, detail="%s: %s" % (type(exc).__name__, str(exc)[:200]))
+        return
+    acc.tags["asserted"] += 1
+    acc.vcs += 1
+    want = defnames_reference(r["f"])
+    if r["out"] != want:
+        acc.candidate(kind="def-name-resolution", input=dict(defnames=r["f"]), detail="rendered %r, Python's scoping gives %r" % (r["out"], want))
+    acc.sample(dict(flags=r["f"], output=r["out"]))
 
 
 def make_replay(c):
@@ -268,17 +349,21 @@ if "flags" in CASE:
     print("rendered:", out, " documented:", want)
     if out != want and not (want == "[imp]" and out.replace("[", "").replace("]", "") == "imp"): bad = "name resolved from the wrong scope"
     if not unchanged: bad = "render() altered the caller's data"
+elif "defnames" in CASE:
+    f = CASE["defnames"]
+    import mako.template as TPm
+    print(C04.defnames_source(f))
+    out, want = C04.defnames_case(TPm, RT, f), C04.defnames_reference(f)
+    print("rendered:", out, " expected:", want)
+    if out != want: bad = "a def name resolved to the wrong def"
 elif "where" in CASE:
+    import mako.template as TPm
     name, where, el = CASE["name"], CASE["where"], CASE["enable_loop"]
-    try:
-        if where == "render-argument": Template("x", enable_loop=el).render(**{name: 1})
-        elif where == "template-assignment": Template("<" + "% " + name + " = 1 %" + ">x", enable_loop=el).render()
-        else: Template('<' + '%def name="d(' + name + ')">x</' + '%def>y', enable_loop=el).render()
-        res = "ok"
-    except exceptions.NameConflictError: res = "NameConflictError"
+    if where in C04.ASSIGN: print(C04.ASSIGN[where].replace("NAME", name))
+    res = C04.reserved_case(TPm, RT, exceptions, name, where, el)
     reserved = name in ("context", "UNDEFINED", "STOP_RENDERING") or (name == "loop" and el)
-    print(res)
-    if res != ("NameConflictError" if reserved else "ok"): bad = "reserved name handling"
+    print(where, name, "->", res)
+    if res != ("NameConflictError" if reserved else "ok"): bad = "reserved name %s via %s: %s" % (name, where, res)
 else:
     # context.kwargs must return the render arguments however often it is read and whatever is done with the returned dict
     t = Template("<% k = context.kwargs; k['injected'] = 1 %>${sorted(context.kwargs)}")
@@ -292,6 +377,12 @@ sys.exit(1 if bad else 0)
 
 
 def classify(c):
+    i = c.get("input") or {}
+    if c["kind"] == "reserved-name" and i.get("name") != "ordinary":
+        if i.get("where") == "module-level-assignment":
+            return "C04-reserved-name-module-level-assignment"
+        if i.get("where") == "walrus-in-expression":
+            return "C04-reserved-name-walrus-in-expression"
     return None
 
 
@@ -305,13 +396,18 @@ def run(check, tier):
         "compile-time half: for every solver-chosen combination of binding sites (context, module-level <%! %>, namespace import, body "
         "assignment, def argument), read site (body, def, nested def, named block, call body, control line), name (ordinary / a builtin's) "
         "and strict_undefined, a real template is compiled and rendered and must print the value the statement's order selects",
-        "reserved names: context / UNDEFINED / STOP_RENDERING / loop / an ordinary name as render argument or template assignment, with "
-        "enable_loop on/off (def parameters named like a reserved name are not covered by the statement and not asserted)")
+        "reserved names: context / UNDEFINED / STOP_RENDERING / loop / an ordinary name through every render entry point (render, "
+        "render_unicode, get_def().render, render_context keyword, Context data) and every binding form of a template (block assignment, "
+        "for / tuple target, with-as, except-as, import-as, def statement, in a def, in a block, module-level block, := in an expression), "
+        "enable_loop on/off (def parameters named like a reserved name are not covered by the statement and not asserted)",
+        "defs as names: a top-level def, a def nested in another def under the same name, and a context variable of that name, read "
+        "from the enclosing def, a def nested deeper, another top-level def and the body")
     check.not_claimed("Python statement forms beyond simple assignment (FindIdentifiers over arbitrary code: C19's unclaimed half)",
                       "page arguments seen by defs", "closure variables of enclosing defs beyond one level")
     jobs = [("C04-context", h_context, on_context, "Context lookups with solver-chosen render arguments", dict(names=3), ("asserted",)),
             ("C04-scopes", h_scopes, on_scopes, "binding sites x read sites x strict_undefined over real templates", dict(sites=SITES), ("asserted",)),
-            ("C04-reserved", h_reserved, on_reserved, "reserved names", dict(names=RESERVED), ("asserted",))]
+            ("C04-reserved", h_reserved, on_reserved, "reserved names x entry points and binding forms", dict(names=RESERVED, where=WHERE), ("asserted",)),
+            ("C04-defnames", h_defnames, on_defnames, "def names: nested def shadows the top-level def of the same name", dict(flags=4), ("asserted",))]
     for j in jobs:
         driver.register(j[0], j[1], j[2])
     cands = []
